@@ -47,6 +47,7 @@ def E(t):
 
 
 def run(ctx):
+  none_defaults_tested_by_identity(ctx)      # location-independent: before the anchored rules, which may give up
   invariant(ctx)
   slices(ctx)
   interface(ctx)
@@ -58,6 +59,53 @@ def run(ctx):
   pitfall_sites(ctx)
   deep_copies(ctx)
   slice_offset_grid(ctx)
+
+
+def none_defaults_tested_by_identity(ctx, rule='NONE/default-tested-by-identity'):
+  """Location-independent: a parameter that defaults to None and carries a step offset (`*_step`) or an event sequence / event list
+  (`melody`, `chords`, `events`) has valid values that are falsy - step 0, a sequence of zero events (the sequence classes define
+  __len__).  "Was it given" must therefore be asked with `is None` / `is not None`.  A truth test of such a parameter (`if melody:`,
+  `x if start_step else y`) or `param or fallback` with a fallback other than the falsy value itself takes the not-given path for
+  step 0 / an empty sequence: the offset or the resolution of the result is replaced by a default."""
+  def tracked(name):
+    return name.endswith('_step') or name == 'step' or name in ('melody', 'chords', 'events', 'chord_progression', 'drum_track')
+  n = 0
+  for mod in ('events_lib', 'melodies_lib', 'chords_lib', 'drums_lib', 'lead_sheets_lib'):
+    mi = ctx.P.module(mod)
+    for q, fi in sorted(mi.all_functions.items()):
+      fn = fi.node
+      a = fn.args
+      pos = a.posonlyargs + a.args
+      dflt = dict(zip([x.arg for x in pos[len(pos) - len(a.defaults):]], a.defaults))
+      dflt.update(dict((x.arg, d) for x, d in zip(a.kwonlyargs, a.kw_defaults) if d is not None))
+      params = set(k for k, d in dflt.items() if isinstance(d, ast.Constant) and d.value is None and tracked(k))
+      if not params:
+        continue
+      rebound = set(t.id for st in U.walk_stmts(fn) if isinstance(st, (ast.Assign, ast.AugAssign)) for t0 in (st.targets if isinstance(st, ast.Assign) else [st.target]) for t in ast.walk(t0) if isinstance(t, ast.Name))
+      params -= rebound
+      bad = []
+      for x in ast.walk(fn):
+        tests = []
+        if isinstance(x, (ast.If, ast.While, ast.IfExp)):
+          tests.append(x.test)
+        elif isinstance(x, ast.BoolOp) and isinstance(x.op, ast.Or) and isinstance(x.values[0], ast.Name) and x.values[0].id in params:
+          fb = x.values[1]
+          falsy = (isinstance(fb, ast.Constant) and not fb.value) or (isinstance(fb, (ast.List, ast.Tuple, ast.Dict)) and not (fb.elts if not isinstance(fb, ast.Dict) else fb.keys))
+          if not falsy:
+            bad.append((x, x.values[0].id, '`%s`' % norm_text(x)[:60]))
+        for t in tests:
+          if isinstance(t, ast.UnaryOp) and isinstance(t.op, ast.Not):
+            t = t.operand
+          if isinstance(t, ast.Name) and t.id in params:
+            bad.append((t, t.id, 'the truth test `%s`' % norm_text(t)))
+      n += 1
+      cons = '%s asks "was it given" of its None-defaulted %s with `is None`' % (fi.qualname if hasattr(fi, 'qualname') else q, ', '.join(sorted(params)))
+      ctx.ob(rule, fi, bad[0][0] if bad else fn, not bad, 'no truth test of %s' % ', '.join(sorted(params)) if not bad else
+             '%s treats a given-but-falsy %s (step 0, or a sequence with no events) like one that was not given: the result takes the default offset / resolution instead of the one it was '
+             'constructed with' % (bad[0][2], bad[0][1]), construct=cons, definite=True)
+  if n == 0:
+    why = 'cannot classify: no None-defaulted step / sequence parameter found in the event-sequence modules'
+    ctx.ob(rule, ctx.P.module('events_lib'), ctx.P.module('events_lib').tree, False, why, construct='None defaults are tested with `is None`', unknown=why)
 
 
 def slice_offset_grid(ctx):
